@@ -350,23 +350,17 @@ func c10ScriptKey(kind c10KeyKind, idx int) string {
 // c10Script renders the history as script source and the expected output
 // lines; range lines are checked by the offline checker instead of compared.
 func c10Script(h c10History) (src string, ok bool) {
-	if h.Kind != "string" && h.Kind != "int" {
+	if h.Kind != "string" && h.Kind != "int" && h.Kind != "uint32" {
 		return "", false
 	}
-	kt, et := "int", "int"
-	if h.Kind == "string" {
-		kt = "string"
-	}
+	kt, et := h.Kind, "int"
 	switch h.Elem {
 	case "string":
 		et = "string"
 	case "slice":
 		et = "[]int"
 	}
-	kind := c10Kinds[0]
-	if h.Kind == "int" {
-		kind = c10Kinds[1]
-	}
+	kind := c10KindByName(h.Kind)
 	val := func(v int) string {
 		switch h.Elem {
 		case "string":
@@ -431,11 +425,17 @@ func c10Script(h c10History) (src string, ok bool) {
 }
 
 // c10CheckScript replays the printed events against the mirror.
-func c10CheckScript(h c10History, out string) string {
-	kind := c10Kinds[0]
-	if h.Kind == "int" {
-		kind = c10Kinds[1]
+func c10KindByName(n string) c10KeyKind {
+	for _, k := range c10Kinds {
+		if k.name == n {
+			return k
+		}
 	}
+	panic("key kind " + n)
+}
+
+func c10CheckScript(h c10History, out string) string {
+	kind := c10KindByName(h.Kind)
 	elem := c10ElemOf(h.Elem)
 	mirror := map[any]int{}
 	for i := 0; i < h.Init && i < len(kind.keys); i++ {
